@@ -377,3 +377,50 @@ def t_lemma_arith(tier, max_n=2):
             if r2 != z3.sat:
                 tr.error = "canary failed: %s is provable without its hypotheses (vacuous encoding?)" % name
     return tr
+
+
+@task("table_c06")
+def t_table_c06(tier, chunk=0, nchunks=1):
+    """C06: per decomposable row of the POSC filler, factor x c_T == product of the component factors
+    (x prefix), and per SI-prefixed atomic row, factor == 10^n x factor of the unprefixed unit; exact
+    rational arithmetic on the literal texts read from the real AST; cross-check of the literals against
+    the closures the real code builds."""
+    from . import c06
+    from .values import SNum
+    from .engine import Path, PyRaise
+    from .interp import Interp
+    from fractions import Fraction
+
+    tr = TaskResult("table_c06:%d/%d" % (chunk, nchunks))
+    obs, stats, rows = c06.obligations()
+    for name, ok, detail, info in obs[chunk::nchunks]:
+        tr.obligations.append(_ground(name, ("C06",), ok, detail, {"probe": "c06_row", "hint": info}))
+    # tie the literal texts to the running code: slope of the real to-base closure == b/c
+    T = table_or_obligation(tr, "posc", chunk, ("C06",))
+    nchk = 0
+    if T is not None:
+        I = Interp(Path([], {}), get_repo())
+        I.P.ghost["singletons"] = {"UnitDatabase": T.db}
+        for u, r in list(rows.items())[chunk::nchunks]:
+            f = c06.factor(r)
+            row = T.units.get(u)
+            if f is None or row is None:
+                continue
+            try:
+                vals = [I.call(row.tb, [SNum(x)]) for x in (0, 1)]
+                ok = all(isinstance(v, SNum) and v.concrete() is not None for v in vals)
+            except PyRaise:
+                ok = False
+            if ok:
+                slope = Fraction(vals[1].concrete()) - Fraction(vals[0].concrete())
+                ok = abs(slope - f[0]) <= abs(f[0]) * Fraction(1, 10**12)  # literals are binary64 at run time
+            nchk += 1
+            if not ok:
+                tr.obligations.append(_ground("posc/row[%s]/literal-matches-closure" % u, ("C06",), False, "slope of the real closure differs from the literal b/c read from the AST"))
+        tr.obligations.append(_ground("posc/literals-match-closures[%d/%d]" % (chunk, nchunks), ("C06",), True, "%d rows: slope of the executed to-base closure equals the literal b/c" % nchk))
+    if chunk == 0:
+        stats["literal_cross_checks"] = "every row with a factor, by chunk"
+        tr.extra["c06"] = stats
+        fi = get_repo().func("barril.units.posc:FillUnitDatabaseWithPosc")
+        tr.functions.append({"function": fi.fq, "file": fi.module.path, "lines": list(fi.span()), "sha256": fi.sha256(), "level": "proof", "role": "coefficient literals of every row read from the real AST; %d compound rows and %d SI-prefixed rows decided in exact rational arithmetic" % (stats["decomposable"], stats["prefix"])})
+    return tr
